@@ -47,3 +47,34 @@ pub fn stub_unbounded_send<T>(_s: &UnboundedSender<T>, msg: T) -> Result<(), tok
     core::mem::forget(msg);
     Ok(())
 }
+
+// ---------------------------------------------------------------------------------------------
+// Polling an async fn exactly once.
+//
+// `kani::block_on` polls in a `loop`; CBMC cannot see that the first poll returns Ready (the coroutine's
+// state discriminant is not constant-propagated), so it unwinds that loop to the harness bound and walks
+// the whole function body again on every unwinding.  The shell functions under test contain no await that
+// can suspend in the verification build (their only awaits are the socket sends that are stubbed or cut),
+// so ONE poll from the initial state runs the body to completion; a Pending result is reported as a failed
+// assertion rather than assumed away.
+fn noop_raw_waker() -> core::task::RawWaker {
+    fn clone(_: *const ()) -> core::task::RawWaker {
+        noop_raw_waker()
+    }
+    fn noop(_: *const ()) {}
+    static VTABLE: core::task::RawWakerVTable = core::task::RawWakerVTable::new(clone, noop, noop, noop);
+    core::task::RawWaker::new(core::ptr::null(), &VTABLE)
+}
+
+pub fn poll_once<F: core::future::Future>(fut: F) -> F::Output {
+    let waker = unsafe { core::task::Waker::from_raw(noop_raw_waker()) };
+    let mut cx = core::task::Context::from_waker(&waker);
+    let mut fut = core::pin::pin!(fut);
+    match fut.as_mut().poll(&mut cx) {
+        core::task::Poll::Ready(r) => r,
+        core::task::Poll::Pending => {
+            assert!(false, "HARNESS: the async fn suspended (an await that is not stubbed)");
+            loop {}
+        }
+    }
+}
